@@ -100,13 +100,53 @@ func init() {
 	})
 }
 
+// Build: as baseSpace.Build; with the crash / twin oracles the space also tracks commits and can rebuild
+// its history on a fresh world (histories then contain commit / cache-drop / reopen events, so that
+// collision groups are also operated on after they were decoded from their registers).
+func (c *collSpace) Build(path []Op) (*World, error) {
+	w := c.newWorld()
+	if w.Digests != nil {
+		setCollisionLimit(w.Digests.Limit)
+	}
+	if c.spec.Has("crash") || c.spec.Has("twin") || c.spec.Has("faults") {
+		w.KeyStorage = true
+		w.TrackCommits = c.spec.Has("crash")
+		w.TwinBase = func() (*World, error) { return c.newWorld(), nil }
+	}
+	for _, op := range c.seed {
+		if err := w.Apply(op); err != nil {
+			return nil, fmt.Errorf("seed op %s: %w", op, err)
+		}
+	}
+	for _, op := range path {
+		if err := w.Apply(op); err != nil {
+			return nil, err
+		}
+	}
+	return w, nil
+}
+
 func (c *collSpace) Ops(w *World) []Op {
 	var ops []Op
+	for _, ev := range c.spec.Oracles {
+		switch ev {
+		case "ev:commit1":
+			ops = append(ops, Op{K: "commit", N: 1})
+		case "ev:cdrop":
+			ops = append(ops, Op{K: "cdrop"})
+		case "ev:creopen":
+			ops = append(ops, Op{K: "creopen"})
+		}
+	}
+	lookups := !(c.spec.Has("crash") || c.spec.Has("twin"))
 	for k := 0; k < c.spec.Keys; k++ {
 		for _, cl := range c.spec.Classes {
 			ops = append(ops, Op{K: "mset", C: 0, Key: k, V: cl})
 		}
-		ops = append(ops, Op{K: "mremove", C: 0, Key: k}, Op{K: "mget", C: 0, Key: k}, Op{K: "mhas", C: 0, Key: k})
+		ops = append(ops, Op{K: "mremove", C: 0, Key: k})
+		if lookups {
+			ops = append(ops, Op{K: "mget", C: 0, Key: k}, Op{K: "mhas", C: 0, Key: k})
+		}
 	}
 	if w.Conts[0].Count() > 0 {
 		ops = append(ops, Op{K: "pop", C: 0})
